@@ -32,6 +32,10 @@ def run(tier, seed, pid='C16', pack=None):
         # the Newton step hands the assembled matrix and residual to the selected back end and uses what it returns
         from contracts import fn_pflow as P
         run_contracts(pack, [(P.nr_step(pid), None, P.replay_nr_step)])
+        # the time-domain Newton loop asks the back end for a fresh factorisation whenever it re-evaluated the Jacobian (SciPy's splu is
+        # renewed only on request); the tolerance clause of the same contract belongs to C04 / C17 and is dropped here
+        from contracts import fn_tds as T
+        run_contracts(pack, [(T.step(pid, drop=('success=>last-correction-within-tol-and-not-NaN',)),)])
     if own:
         from contracts.packutil import native_guard
         from contracts import bounded_backends as BB
